@@ -129,13 +129,16 @@ func c12(args []string) {
 			{"DateDEshort", "311299", 0, 1, 36159}, {"DateENshort", "123199", 0, 1, 36159}, // all are 19yy
 		}
 		gs := make([]hermes.GlobalVarsMain, len(cfgs))
+		// ONE session for all configurations (a batch that mixes projects): anything the session caches across runs
+		// is shared by them
+		shared := hermes.NewHermesSession()
 		for i, c := range cfgs {
 			pn := fmt.Sprintf("p%d", i)
 			proj := filepath.Join(tmp, "project", pn)
 			os.MkdirAll(proj, 0o755)
 			os.WriteFile(filepath.Join(proj, "config.yml"), []byte(fmt.Sprintf("Dateformat: %s\nDivideCentury: %d\nEndDate: '%s'\n", c.name, c.cent, c.end)), 0o644)
 			gs[i] = hermes.NewGlobalVarsMain()
-			gs[i].Session = hermes.NewHermesSession()
+			gs[i].Session = shared
 			hp := hermes.NewHermesFilePath(tmp, pn, "u", "", "")
 			hermes.VerifReadConfig(&gs[i], map[string]string{}, &hp)
 		}
